@@ -61,12 +61,12 @@ func init() {
 var ecmaLadder = []string{"OpExpr", "OpAssign", "OpCoalesce", "OpOr", "OpAnd", "OpBitOr", "OpBitXor", "OpBitAnd", "OpEquals", "OpCompare", "OpShift", "OpAdd", "OpMul", "OpExp", "OpUnary", "OpUpdate", "OpLHS"}
 
 type armFacts struct {
-	ret    []string // X in `OpX < prec` -> return left
-	minL   []string // Y in `precLeft < OpY` -> fail
-	neqL   []string // Y in `precLeft != OpY`
-	right  []string // Z in p.parseExpression(OpZ)
-	setL   []string // W in precLeft = OpW
-	pos    token.Pos
+	ret   []string // X in `OpX < prec` -> return left
+	minL  []string // Y in `precLeft < OpY` -> fail
+	neqL  []string // Y in `precLeft != OpY`
+	right []string // Z in p.parseExpression(OpZ)
+	setL  []string // W in precLeft = OpW
+	pos   token.Pos
 }
 
 func identName(e ast.Expr) string {
